@@ -164,13 +164,24 @@ static void c01_request(absreq const &r,bool quick,vt::rng &rng,bool is_long)
 }
 
 // keep-alive chains on HTTP: k requests on one connection, the stream cut anywhere (also across request boundaries)
-static void c01_chain(std::vector<absreq> const &cat,int chain_id,int k,bool quick,vt::rng &rng)
+static void c01_chain(std::vector<absreq> const &cat,int chain_id,int k,bool quick,vt::rng &rng,int longfirst=0)
 {
 	emit(vt::J().s("e","Reset").i("id",chain_id).str());
 	std::string stream; std::vector<absreq> rs;
 	for(int i=0;i<k;i++) {
 		absreq r=cat[rng(cat.size())];
 		if(r.body.size()>64) { i--; continue; }
+		if(longfirst) {
+			// a keep-alive connection whose FIRST request carries one string of more than half a pool page (1..2 KiB: long
+			// request URI or long header value) and whose later requests carry several medium-sized ones: the per-connection
+			// string pool (private/string_map.h) is cleared and reused between them
+			r=R(0,"GET",i%2?"/async":"/sync","/lf",i?"a=1":0);
+			if(i==0) {
+				std::string big(1030+rng(800),'u');
+				if(longfirst==1) r.path="/"+big; else H(r,"X-Big",big);
+			}
+			else for(int h=0;h<3+(int)rng(3);h++) { char nm[16]; snprintf(nm,sizeof(nm),"X-M%d",h); H(r,nm,std::string(300+rng(600),'a'+h)); }
+		}
 		r.id=chain_id*10+i;
 		if(i%2==1) r.ver="HTTP/1.1";
 		H(r,"Connection",i+1<k?"keep-alive":"close");
@@ -229,6 +240,11 @@ static int c01_main(int shard,int nshards,bool quick,uint64_t seed)
 		if(c%nshards!=shard) continue;
 		vt::rng rng(seed*31+c);
 		c01_chain(cat,100+c,1+c%4,quick,rng);
+	}
+	for(int c=0;c<(quick?4:16);c++) {
+		if(c%nshards!=shard) continue;
+		vt::rng rng(seed*37+c);
+		c01_chain(cat,200+c,2+c%3,quick,rng,1+c%2);
 	}
 	S.barrier();
 	emit(vt::J().s("e","Reset").i("id",0).str());
